@@ -97,6 +97,30 @@ CACHE_TEXTS = [
 G = {}
 
 
+def byte_cover_chars():
+    """Multi-byte neighbours such that every continuation-byte value 0x80..0xBF occurs in every continuation
+    position of 2-, 3- and 4-byte UTF-8 sequences (characters outside the statement's domain are dropped)."""
+    cps = set()
+    cps |= set(range(0xC0, 0x100))  # C3 80..BF
+    cps |= set(range(0xA1, 0xC0))  # C2 A1..BF
+    cps |= {0x2000 + v for v in range(64)}  # E2 80 xx
+    cps |= {0x1000 + 64 * k for k in range(64)}  # E1 xx 80
+    cps |= {0xFFC0 + v for v in range(0x3E)} | {0xFFFD, 0xFEFF}  # EF BF xx, U+FFFD, BOM
+    cps |= {0x1F600 + v for v in range(64)}  # F0 9F 98 xx
+    cps |= {0x1F000 + 64 * k for k in range(64)}  # F0 9F xx 80
+    cps |= {0x10000 + 4096 * k for k in range(64)}  # F0/F1.. xx 80 80
+    out = []
+    for cp in sorted(cps):
+        c = chr(cp)
+        try:
+            c.encode("utf8")
+        except UnicodeEncodeError:
+            continue
+        if in_domain(c):
+            out.append(c)
+    return out
+
+
 def in_domain(text):
     for c in text:
         o = ord(c)
@@ -401,6 +425,8 @@ def shards(tier, seed):
         out.append({"part": "cache", "r": r, "n": 32, "tier": tier})
     for r in range(16):
         out.append({"part": "crash", "r": r, "n": 16, "tier": tier})
+    for r in range(32):
+        out.append({"part": "bytes", "r": r, "n": 32, "stride": 160 if tier == "quick" else 40})
     return out
 
 
@@ -435,6 +461,19 @@ def run_shard(sh):
                     text = left + w + right
                     res, nref = check_text(text, "AC", citations=False)
                     record({"part": "matrix", "text": text, "ref": "AC", "extractor": i}, h64(text), res, nref > 0, "matrix")
+        return st
+    if sh["part"] == "bytes":
+        ex = T.EXTRACTORS
+        idxs = sorted(set(range(0, len(ex), sh["stride"])) | set(range(len(ex) - 5, len(ex))))
+        chars = byte_cover_chars()
+        for i in idxs[sh["r"] :: sh["n"]]:
+            w = witness(ex[i])
+            if w is None or not in_domain(w):
+                continue
+            for c in chars:
+                for text in (c + w, w + c, c + w + c, "x" + c + " " + w + " " + c):
+                    res, nref = check_text(text, "AC", citations=False)
+                    record({"part": "bytes", "text": text, "ref": "AC", "extractor": i}, h64(text), res, nref > 0, "bytes")
         return st
     if sh["part"] == "docs":
         seen = set()
